@@ -23,7 +23,12 @@ func (r *yieldRewriter) ignoreKeyVal(k, v ast.Expr) (bool, bool) {
 }
 
 func (r *yieldRewriter) rewriteRanges(block *ast.BlockStmt) {
-	astutil.Apply(block, nil, func(c *astutil.Cursor) bool {
+	astutil.Apply(block, func(c *astutil.Cursor) bool {
+		// a plain closure of the generator keeps its native range statements: they
+		// cannot yield, and Go's own range is the specification
+		lit, ok := c.Node().(*ast.FuncLit)
+		return !ok || r.rewriter.isYieldFuncLit(lit)
+	}, func(c *astutil.Cursor) bool {
 		switch n := c.Node().(type) {
 		case *ast.RangeStmt:
 			if c.Index() < 0 {
